@@ -740,6 +740,10 @@ class Screen(BaseScreen, RealTerminal):
             if e.args[0] != 4:
                 raise
 
+        if self._resized:
+            # the size changed while writing: what the terminal shows now is unknown, repaint completely next time
+            return
+
         self.screen_buf = sb
         self._screen_buf_canvas = canvas
 
